@@ -21,6 +21,8 @@ def run(tier, seed):
     sub = only_actions(g, {"NewEmpty", "Construct"})
     for pe, we, sp in combos:
         ctx.replay(sub, NDAdapter(POS[pe], WTS[we], spelling=sp), VIEW, label=f"{pe}/{we}/sp{sp}")
+    from props import trace_nd
+    trace_nd.run_part(ctx, tier, seed_offset=31)        # engine T: recorded float executions (h / h2 / h3, fill, fill_n) validated by TLC
     ctx.assumptions = ["per-axis binning depends only on the order of values and edges", "axes have different bin counts and edges, so a swapped axis cannot give the same cell"]
     return ctx.finish("every Construct/NewEmpty transition of the HistND state graph (2 asymmetric axes, consecutive and gapped, "
                       "right-edge inclusive or not per axis, rows on/beside every edge, NaN rows, weights) is executed through "
